@@ -76,9 +76,12 @@ def run(tier, rng, C):
         def at(v):
             return M(('copy', M(('inner', v)))) if nest else M(('copy', v))
         layers = [M(('cfg', l)) for l in cfg_layers] + [at(S('${cfg}')), at(wr)]
-        inl = [M(('cfg', l)) for l in cfg_layers] + [at(l) for l in cfg_layers] + [at(wr)]
-        if rng.random() < 0.3:
-            # a later direct writer on cfg itself, after the reference was taken
+        later = rng.random() < 0.3
+        # (a reference sees the parameter as it finally is: a later direct writer on cfg itself is one of the layers
+        #  that ${cfg} delivers, although it is written after the reference)
+        seen_by_ref = cfg_layers + ([wr] if later else [])
+        inl = [M(('cfg', l)) for l in cfg_layers] + [at(l) for l in seen_by_ref] + [at(wr)]
+        if later:
             layers.append(M(('cfg', wr)))
             inl.append(M(('cfg', wr)))
         cid = C.case_id('rc', i)
